@@ -6,6 +6,15 @@ LEAN_MODULE = ["ESRVerif.Props.C14", "ESRVerif.Props.C14b"]
 LEVEL = "proof"
 RULE = ("(N,P,r) triples enumerated exhaustively up to the tier bound for split_idx and get_functions; "
         "non-trivial = P>=2 and N>=1; distinct by (function,N,P)")
+LEVEL_TEXT = ("Lean theorems, unbounded in N and P (incl. P > N and N = 0): split_idx blocks are contiguous, in rank order, of numpy.array_split's "
+              "sizes, empty exactly for surplus ranks, and concatenate to the list; get_functions' nLs loop terminates with nLs*(P-1) <= N and its "
+              "slices concatenate to the file line for line, so per-rank outputs concatenated in rank order have one row per function in file order; "
+              "a directory protocol using only exist_ok creation never raises for any rank count and ANY interleaving, creation by rank 0 alone "
+              "never raises, while check-then-mkdir on every rank has a raising interleaving for P = 2. Which protocol the fitting stages use is "
+              "regenerated from the source on every run and decided in Lean. Tie: exhaustive correspondence of the real split_idx/get_functions up to "
+              "(N,P) = (300,40); the four real fitting stages under the multi-process stand-in for rank counts incl. P > N and 13 ranks (rank numbers >= 10 "
+              "owning functions) with a row-alignment oracle; the Likelihood constructor under a forced start-up interleaving.")
+TECHNIQUE = "Lean 4 proof (arithmetic + list tiling + interleaving semantics of directory protocols) + regenerated protocols + exhaustive correspondence + multi-rank stage runs"
 EXPLANATION = ("Lean theorems (unbounded N,P) over the hand model of split_idx/get_functions and the directory "
                "protocol; model tied to the code by exhaustive correspondence up to the bound and by real multi-rank stage runs")
 TRUSTED = ["hand model ESRVerif/Model/Partition.lean of split_idx and get_functions (tied by exhaustive correspondence up to the bound)",
